@@ -10,6 +10,7 @@ import (
 
 	mail "github.com/wneessen/go-mail"
 	mlog "github.com/wneessen/go-mail/log"
+	"github.com/wneessen/go-mail/smtp"
 
 	"verif/sim/refsmtpd"
 	"verif/sim/sim"
@@ -265,6 +266,28 @@ func execSendHook(t *testing.T, sc *SendScenario, logger mlog.Logger, hook func(
 						break
 					}
 				}
+			case "sendwith":
+				// the caller makes the smtp.Client itself (smtp.NewClient on its own connection;
+				// nothing has been said on it yet) and hands it to SendWithSMTPClient
+				conn, derr := env.Dial(context.Background(), "tcp", sc.Client.host()+":25")
+				if derr != nil {
+					run.Infra = "dial: " + derr.Error()
+					return
+				}
+				sclient, nerr := smtp.NewClient(conn, sc.Client.host())
+				if nerr != nil {
+					run.DialCall = &CallRec{Name: "smtp.NewClient", Err: nerr, Returned: true}
+					break
+				}
+				for _, bs := range run.Built {
+					ms := msgsOf(bs)
+					call := env.Call("Send", func() error { return c.SendWithSMTPClient(sclient, ms...) })
+					run.SendCalls = append(run.SendCalls, call)
+					if !call.Returned {
+						break
+					}
+				}
+				run.CloseCall = env.Call("Close", func() error { return c.CloseWithSMTPClient(sclient) })
 			case "dial-redial-send":
 				// DialWithContext, no Close, (the caller reconfigures the Client,) DialWithContext
 				// again, Send, Close: what is sent after the second dial belongs to the second dial
